@@ -21,7 +21,6 @@ fn c13_confirmation_tag_bounded_4() {
     let r = ConfirmationTag::create(&key, &cth, &p);
     assert!(r.is_ok());
     let tag = r.ok().unwrap();
-    kani::cover!(key.len() == 4 && hash.len() == 4);
     assert!(p.calls() == 1);
     // MAC(key = confirmation_key, data = confirmed_transcript_hash)
     assert!(p.is(0, Op::Mac, &key, &hash, 0));
@@ -36,7 +35,6 @@ fn c13_confirmation_tag_provider_error_bounded_4() {
     let key = any_bytes::<4>();
     let cth = ConfirmedTranscriptHash::from(any_bytes::<4>());
     let r = ConfirmationTag::create(&key, &cth, &p);
-    kani::cover!(true);
     assert!(is_provider_error(&r));
     core::mem::forget(r);
 }
@@ -55,8 +53,6 @@ fn c13_confirmation_tag_matches_bounded_4() {
     let r = claimed.matches(&key, &cth, &p);
     assert!(r.is_ok());
     let ok = r.ok().unwrap();
-    kani::cover!(ok);
-    kani::cover!(!ok);
     assert!(p.calls() == 1);
     assert!(p.is(0, Op::Mac, &key, &hash, 0));
     assert!(ok == is_out(&claimed, 1, MAC_LEN));
